@@ -1084,24 +1084,63 @@ Proof.
     eapply wf_put_lock_core; eauto.
 Qed.
 
-Lemma run_work_wf w acts : forall s, WF s -> WF (fst (run_work current w s acts)).
+(* ------------------------------------------------------------------ *)
+(* scripted callback bodies.  A body is run by [run_work_with nested encl]: an
+   invariant of the step API that the nested execute_operation calls preserve
+   (when they are made: the id is neither live nor that of an enclosing
+   operation) is an invariant of the body.  [run_work] = no nested calls
+   (the checkpoint callbacks). *)
+
+Lemma run_work_with_inv (P : st -> Prop) nested encl w :
+  (forall s a, P s -> P (fst (fstep current w s a))) ->
+  forall acts,
+  (forall s o p reqs sc, In (WExec o p reqs sc) acts -> P s ->
+     ~ In o (active s) -> ~ In o encl -> P (fst (nested s o p reqs sc))) ->
+  forall s, P s -> P (fst (run_work_with nested encl current w s acts)).
 Proof.
-  induction acts as [|a acts IH]; intros s W; simpl; auto.
-  destruct a as [|f].
-  - specialize (IH s W). destruct (run_work current w s acts). auto.
-  - pose proof (fstep_wf w s f W) as W1. destruct (fstep current w s f) as [s1 ret]. simpl in W1.
-    specialize (IH s1 W1). destruct (run_work current w s1 acts). auto.
+  intros Hf. induction acts as [|a acts IH]; intros Hn s H; simpl; auto.
+  assert (Hn' : forall s o p reqs sc, In (WExec o p reqs sc) acts -> P s ->
+                  ~ In o (active s) -> ~ In o encl -> P (fst (nested s o p reqs sc))).
+  { intros; eapply Hn; eauto. simpl; auto. }
+  destruct a as [|f|o p reqs sc].
+  - specialize (IH Hn' s H). destruct (run_work_with nested encl current w s acts). auto.
+  - pose proof (Hf s f H) as H1. destruct (fstep current w s f) as [s1 ret]. simpl in H1.
+    specialize (IH Hn' s1 H1). destruct (run_work_with nested encl current w s1 acts). auto.
+  - destruct (is_active s o || memz o encl) eqn:E.
+    + specialize (IH Hn' s H). destruct (run_work_with nested encl current w s acts). auto.
+    + apply orb_false_iff in E as [E1 E2].
+      assert (H1 : P (fst (nested s o p reqs sc))).
+      { apply Hn; simpl; auto; now apply memz_false. }
+      destruct (nested s o p reqs sc) as [s1 r]. simpl in H1.
+      specialize (IH Hn' s1 H1). destruct (run_work_with nested encl current w s1 acts). auto.
 Qed.
 
-Definition probes_only (acts : list wact) : Prop := forall a, ~ In (WDo a) acts.
+Lemma run_work_inv (P : st -> Prop) w :
+  (forall s a, P s -> P (fst (fstep current w s a))) ->
+  forall acts s, P s -> P (fst (run_work current w s acts)).
+Proof. intros Hf acts s H. apply run_work_with_inv; auto. Qed.
 
-Lemma run_work_probes fl w acts : forall s, probes_only acts -> fst (run_work fl w s acts) = s.
+Lemma run_work_wf w acts : forall s, WF s -> WF (fst (run_work current w s acts)).
+Proof. intros s W. apply run_work_inv; auto. intros; now apply fstep_wf. Qed.
+
+(* a body that neither calls the controller nor runs a nested operation *)
+Definition probes_only (acts : list wact) : Prop := forall a, In a acts -> a = WProbe.
+
+Lemma run_work_probes nested encl fl w acts :
+  forall s, probes_only acts -> fst (run_work_with nested encl fl w s acts) = s.
 Proof.
   induction acts as [|a acts IH]; intros s P; simpl; auto.
-  destruct a as [|f].
-  - assert (P' : probes_only acts) by (intros a X; apply (P a); simpl; auto).
-    specialize (IH s P'). destruct (run_work fl w s acts). auto.
-  - exfalso. apply (P f). simpl. auto.
+  assert (P' : probes_only acts) by (intros a' X; apply (P a'); simpl; auto).
+  assert (Ea : a = WProbe) by (apply P; simpl; auto). subst a.
+  specialize (IH s P'). destruct (run_work_with nested encl fl w s acts). auto.
+Qed.
+
+Lemma probes_only_cb (l : list cact) :
+  probes_only (map cact_wact l) <-> forall a, In a l -> a = CProbe.
+Proof.
+  split.
+  - intros P a Ha. specialize (P (cact_wact a) (in_map _ _ _ Ha)). destruct a; simpl in P; congruence.
+  - intros H a Ha. apply in_map_iff in Ha as (c & <- & Hc). now rewrite (H c Hc).
 Qed.
 
 (* ------------------------------------------------------------------ *)
@@ -1130,23 +1169,62 @@ Qed.
 
 (* ------------------------------------------------------------------ *)
 (* An operation that is being executed may have been delisted (killed from
-   inside one of its own checkpoint callbacks) and still go on acquiring
-   locks until execute_operation notices.  [WFbut x s]: [s] is well-formed
-   once [x] is counted among the live operations, i.e. every owner is active
-   OR is [x], and [x] has a context that lists what it owns.
-   [act_plus] commutes with every primitive of the controller, so the lemmas
-   about [WF] carry over. *)
+   inside one of its own callbacks) and still go on acquiring locks until
+   execute_operation notices; with NESTED execute_operation calls there is a
+   whole chain of such operations.  [WFbuts xs s]: [s] is well-formed once the
+   operations [xs] are counted among the live ones, i.e. every owner is active
+   OR one of [xs], and each of [xs] has a context that lists what it owns.
+   [WFbut x] is the one-operation case.  [acts_plus] commutes with every
+   primitive of the controller, so the lemmas about [WF] carry over. *)
 
-Definition act_plus (x : Z) (s : st) : st := set_active s (x :: active s).
-Definition WFbut (x : Z) (s : st) : Prop := WF (act_plus x s).
+Definition acts_plus (xs : list Z) (s : st) : st := set_active s (xs ++ active s).
+Definition WFbuts (xs : list Z) (s : st) : Prop := WF (acts_plus xs s).
+Definition act_plus (x : Z) (s : st) : st := acts_plus [x] s.
+Definition WFbut (x : Z) (s : st) : Prop := WFbuts [x] s.
+
+Lemma set_active_id s : set_active s (active s) = s.
+Proof. destruct s; reflexivity. Qed.
+
+Lemma acts_plus_nil s : acts_plus [] s = s.
+Proof. apply set_active_id. Qed.
+
+Lemma wfbuts_nil s : WFbuts [] s <-> WF s.
+Proof. unfold WFbuts. now rewrite acts_plus_nil. Qed.
+
+Lemma wf_more_active s A B :
+  WF (set_active s A) -> incl A B -> (forall o, In o B -> exists c, get_ctx s o = Some c) ->
+  WF (set_active s B).
+Proof.
+  intros W I C. constructor.
+  - apply (wf_lock _ W).
+  - intros r l o Hl Ho. destruct (wf_own _ W r l o Hl Ho) as (X & Y).
+    split; [apply I; exact X | exact Y].
+  - intros o X. apply C. exact X.
+Qed.
+
+Lemma wfbuts_ctx xs s x : WFbuts xs s -> In x xs -> exists c, get_ctx s x = Some c.
+Proof. intros W X. apply (wf_act _ W x). simpl. apply in_or_app. auto. Qed.
+
+Lemma wfbuts_act_ctx xs s x : WFbuts xs s -> In x (active s) -> exists c, get_ctx s x = Some c.
+Proof. intros W X. apply (wf_act _ W x). simpl. apply in_or_app. auto. Qed.
+
+Lemma wf_wfbuts xs s : WF s -> (forall x, In x xs -> exists c, get_ctx s x = Some c) -> WFbuts xs s.
+Proof.
+  intros W C. unfold WFbuts, acts_plus. apply wf_more_active with (A := active s).
+  - now rewrite set_active_id.
+  - apply incl_appr, incl_refl.
+  - intros o X. apply in_app_or in X as [X|X]; [now apply C | apply (wf_act s W o X)].
+Qed.
+
+Lemma wfbuts_cons x xs s : WFbuts xs s -> (exists c, get_ctx s x = Some c) -> WFbuts (x :: xs) s.
+Proof.
+  intros W C. unfold WFbuts, acts_plus in *. eapply wf_more_active; [exact W| |].
+  - intros y Y. simpl. auto.
+  - intros y [<-|Y]; auto. apply (wf_act _ W y Y).
+Qed.
 
 Lemma wf_wfbut x s : WF s -> (exists c, get_ctx s x = Some c) -> WFbut x s.
-Proof.
-  intros W Hx. constructor.
-  - apply (wf_lock s W).
-  - intros r l o Hl Ho. destruct (wf_own s W r l o Hl Ho) as (A & B). split; auto. simpl. auto.
-  - intros o [<-|X]; [exact Hx | apply (wf_act s W o X)].
-Qed.
+Proof. intros W Hx. apply wf_wfbuts; auto. intros y [<-|[]]. exact Hx. Qed.
 
 Lemma wfbut_wf x s : WFbut x s -> (In x (active s) \/ owns_nothing s x) -> WF s.
 Proof.
@@ -1160,7 +1238,16 @@ Proof.
 Qed.
 
 Lemma wfbut_ctx x s : WFbut x s -> exists c, get_ctx s x = Some c.
-Proof. intros W. apply (wf_act _ W x). simpl. auto. Qed.
+Proof. intros W. apply (wfbuts_ctx [x] s x W). simpl. auto. Qed.
+
+(* operations outside [xs] and not active own nothing *)
+Lemma wfbuts_inactive_owns_nothing xs s o :
+  WFbuts xs s -> ~ In o (active s) -> ~ In o xs -> owns_nothing s o.
+Proof.
+  intros W Na Nx r H.
+  assert (X : In o (active (acts_plus xs s))) by (eapply wf_owner_active; eauto).
+  simpl in X. apply in_app_or in X. tauto.
+Qed.
 
 Lemma remz_cons_ne o x A : o <> x -> remz o (x :: A) = x :: remz o A.
 Proof. intros N. unfold remz. simpl. destruct (Z.eqb x o) eqn:E; [lia|reflexivity]. Qed.
@@ -1168,173 +1255,187 @@ Proof. intros N. unfold remz. simpl. destruct (Z.eqb x o) eqn:E; [lia|reflexivit
 Lemma remz_cons_eq x A : remz x (x :: A) = remz x A.
 Proof. unfold remz. simpl. now rewrite Z.eqb_refl. Qed.
 
-Lemma acquire_plus fl x s o r :
-  acquire fl (act_plus x s) o r = (act_plus x (fst (acquire fl s o r)), snd (acquire fl s o r)).
+Lemma remz_app o A B : remz o (A ++ B) = remz o A ++ remz o B.
+Proof. unfold remz. apply filter_app. Qed.
+
+Lemma remz_notin o A : ~ In o A -> remz o A = A.
 Proof.
-  unfold acquire. change (get_ctx (act_plus x s) o) with (get_ctx s o).
+  induction A as [|a A IH]; intros N; auto.
+  rewrite remz_cons_ne by (intros ->; apply N; simpl; auto).
+  rewrite IH; auto. intros X. apply N. simpl. auto.
+Qed.
+
+Lemma acquire_pluss fl xs s o r :
+  acquire fl (acts_plus xs s) o r = (acts_plus xs (fst (acquire fl s o r)), snd (acquire fl s o r)).
+Proof.
+  unfold acquire. change (get_ctx (acts_plus xs s) o) with (get_ctx s o).
   destruct (get_ctx s o) as [c|]; [|reflexivity].
-  change (get_lock (act_plus x s) r) with (get_lock s r).
+  change (get_lock (acts_plus xs s) r) with (get_lock s r).
   destruct (get_lock s r) as [l|]; [|reflexivity].
   destruct (try_acquire l o (c_prio c)) as [l' res]. destruct res; reflexivity.
 Qed.
 
-Lemma release_plus fl x s o r :
-  release fl (act_plus x s) o r = (act_plus x (fst (release fl s o r)), snd (release fl s o r)).
+Lemma release_pluss fl xs s o r :
+  release fl (acts_plus xs s) o r = (acts_plus xs (fst (release fl s o r)), snd (release fl s o r)).
 Proof.
-  unfold release. change (get_ctx (act_plus x s) o) with (get_ctx s o).
+  unfold release. change (get_ctx (acts_plus xs s) o) with (get_ctx s o).
   destruct (get_ctx s o) as [c|]; [|reflexivity].
   destruct (negb (memz r (c_acq c))); [reflexivity|].
-  change (get_lock (act_plus x s) r) with (get_lock s r).
+  change (get_lock (acts_plus xs s) r) with (get_lock s r).
   destruct (get_lock s r) as [l|]; [|reflexivity].
   destruct (lock_release l o) as [l' ok]. destruct ok; [|reflexivity].
   destruct (f_forget fl || negb (oeqb (l_owner l') o)); reflexivity.
 Qed.
 
-Lemma release_one_plus fl x s o r :
-  release_one fl (act_plus x s) o r = act_plus x (release_one fl s o r).
+Lemma release_one_pluss fl xs s o r :
+  release_one fl (acts_plus xs s) o r = acts_plus xs (release_one fl s o r).
 Proof.
   unfold release_one. destruct (f_reentrant fl).
-  - now rewrite release_plus.
-  - change (get_lock (act_plus x s) r) with (get_lock s r).
+  - now rewrite release_pluss.
+  - change (get_lock (acts_plus xs s) r) with (get_lock s r).
     destruct (get_lock s r) as [l|].
-    + change (put_lock (act_plus x s) r (drop_reentrant (Z.to_nat (l_hold l)) o l))
-        with (act_plus x (put_lock s r (drop_reentrant (Z.to_nat (l_hold l)) o l))).
-      now rewrite release_plus.
-    + now rewrite release_plus.
+    + change (put_lock (acts_plus xs s) r (drop_reentrant (Z.to_nat (l_hold l)) o l))
+        with (acts_plus xs (put_lock s r (drop_reentrant (Z.to_nat (l_hold l)) o l))).
+      now rewrite release_pluss.
+    + now rewrite release_pluss.
 Qed.
 
-Lemma release_fold_plus fl x o (L : list Z) : forall s,
-  fold_left (fun s r => release_one fl s o r) L (act_plus x s) =
-  act_plus x (fold_left (fun s r => release_one fl s o r) L s).
+Lemma release_fold_pluss fl xs o (L : list Z) : forall s,
+  fold_left (fun s r => release_one fl s o r) L (acts_plus xs s) =
+  acts_plus xs (fold_left (fun s r => release_one fl s o r) L s).
 Proof.
-  induction L as [|r L IH]; intros s; simpl; auto. now rewrite release_one_plus, IH.
+  induction L as [|r L IH]; intros s; simpl; auto. now rewrite release_one_pluss, IH.
 Qed.
 
-Lemma release_all_plus fl x s o : release_all fl (act_plus x s) o = act_plus x (release_all fl s o).
+Lemma release_all_pluss fl xs s o : release_all fl (acts_plus xs s) o = acts_plus xs (release_all fl s o).
 Proof.
-  unfold release_all. change (get_ctx (act_plus x s) o) with (get_ctx s o).
-  destruct (get_ctx s o); auto. apply release_fold_plus.
+  unfold release_all. change (get_ctx (acts_plus xs s) o) with (get_ctx s o).
+  destruct (get_ctx s o); auto. apply release_fold_pluss.
 Qed.
 
-Lemma fin_act_ne x o s3 :
-  o <> x -> set_active (act_plus x s3) (remz o (active (act_plus x s3))) =
-            act_plus x (set_active s3 (remz o (active s3))).
+Lemma fin_acts xs o s3 :
+  set_active (acts_plus xs s3) (remz o (active (acts_plus xs s3))) =
+  acts_plus (remz o xs) (set_active s3 (remz o (active s3))).
 Proof.
-  intros N. unfold act_plus, set_active. cbn [active resources ctxs edges now].
-  now rewrite remz_cons_ne.
+  unfold acts_plus, set_active. cbn [active resources ctxs edges now]. now rewrite remz_app.
 Qed.
 
-Lemma fin_act_eq x s3 :
-  set_active (act_plus x s3) (remz x (active (act_plus x s3))) = set_active s3 (remz x (active s3)).
+(* complete / abort of [o]: [o] leaves the extra list as well *)
+Lemma finish_pluss fl xs s o : finish fl (acts_plus xs s) o = acts_plus (remz o xs) (finish fl s o).
 Proof.
-  unfold act_plus, set_active. cbn [active resources ctxs edges now]. now rewrite remz_cons_eq.
-Qed.
-
-Lemma finish_plus_ne fl x s o : o <> x -> finish fl (act_plus x s) o = act_plus x (finish fl s o).
-Proof.
-  intros N. unfold finish. rewrite release_all_plus.
+  unfold finish. rewrite release_all_pluss.
   set (s1 := release_all fl s o).
   destruct (f_graph fl).
-  - change (get_ctx (act_plus x s1) o) with (get_ctx s1 o).
+  - change (get_ctx (acts_plus xs s1) o) with (get_ctx s1 o).
     destruct (get_ctx s1 o) as [c|].
-    + exact (fin_act_ne x o (put_ctx s1 o (c_set_phase c G0 (now s1))) N).
-    + exact (fin_act_ne x o s1 N).
+    + exact (fin_acts xs o (put_ctx s1 o (c_set_phase c G0 (now s1)))).
+    + exact (fin_acts xs o s1).
   - set (s2 := set_edges s1 (remove_all_for_agent (edges s1) o)).
-    change (set_edges (act_plus x s1) (remove_all_for_agent (edges (act_plus x s1)) o)) with (act_plus x s2).
-    change (get_ctx (act_plus x s2) o) with (get_ctx s2 o).
+    change (set_edges (acts_plus xs s1) (remove_all_for_agent (edges (acts_plus xs s1)) o)) with (acts_plus xs s2).
+    change (get_ctx (acts_plus xs s2) o) with (get_ctx s2 o).
     destruct (get_ctx s2 o) as [c|].
-    + exact (fin_act_ne x o (put_ctx s2 o (c_set_phase c G0 (now s2))) N).
-    + exact (fin_act_ne x o s2 N).
+    + exact (fin_acts xs o (put_ctx s2 o (c_set_phase c G0 (now s2)))).
+    + exact (fin_acts xs o s2).
 Qed.
+
+Lemma finish_pluss_ne fl xs s o : ~ In o xs -> finish fl (acts_plus xs s) o = acts_plus xs (finish fl s o).
+Proof. intros N. now rewrite finish_pluss, remz_notin. Qed.
+
+Lemma finish_plus_ne fl x s o : o <> x -> finish fl (act_plus x s) o = act_plus x (finish fl s o).
+Proof. intros N. apply finish_pluss_ne. simpl. intuition. Qed.
 
 Lemma finish_plus_eq fl x s : finish fl (act_plus x s) x = finish fl s x.
 Proof.
-  unfold finish. rewrite release_all_plus.
-  set (s1 := release_all fl s x).
-  destruct (f_graph fl).
-  - change (get_ctx (act_plus x s1) x) with (get_ctx s1 x).
-    destruct (get_ctx s1 x) as [c|].
-    + exact (fin_act_eq x (put_ctx s1 x (c_set_phase c G0 (now s1)))).
-    + exact (fin_act_eq x s1).
-  - set (s2 := set_edges s1 (remove_all_for_agent (edges s1) x)).
-    change (set_edges (act_plus x s1) (remove_all_for_agent (edges (act_plus x s1)) x)) with (act_plus x s2).
-    change (get_ctx (act_plus x s2) x) with (get_ctx s2 x).
-    destruct (get_ctx s2 x) as [c|].
-    + exact (fin_act_eq x (put_ctx s2 x (c_set_phase c G0 (now s2)))).
-    + exact (fin_act_eq x s2).
+  unfold act_plus. rewrite finish_pluss, remz_cons_eq. apply acts_plus_nil.
 Qed.
 
 Lemma finish_plus_lock x s o r :
   get_lock (finish current (act_plus x s) o) r = get_lock (finish current s o) r.
+Proof. unfold act_plus. now rewrite finish_pluss. Qed.
+
+Lemma upd_ctx_pluss xs s o f : upd_ctx (acts_plus xs s) o f = acts_plus xs (upd_ctx s o f).
 Proof.
-  destruct (Z.eq_dec o x) as [->|N].
-  - now rewrite finish_plus_eq.
-  - now rewrite finish_plus_ne.
+  unfold upd_ctx. change (get_ctx (acts_plus xs s) o) with (get_ctx s o). destruct (get_ctx s o); reflexivity.
 Qed.
 
-Lemma upd_ctx_plus x s o f : upd_ctx (act_plus x s) o f = act_plus x (upd_ctx s o f).
+Lemma advance_at_pluss ph xs s o out :
+  advance_at ph (acts_plus xs s) o out =
+  (acts_plus xs (fst (advance_at ph s o out)), snd (advance_at ph s o out)).
 Proof.
-  unfold upd_ctx. change (get_ctx (act_plus x s) o) with (get_ctx s o). destruct (get_ctx s o); reflexivity.
-Qed.
-
-Lemma advance_at_plus ph x s o out :
-  advance_at ph (act_plus x s) o out =
-  (act_plus x (fst (advance_at ph s o out)), snd (advance_at ph s o out)).
-Proof.
-  unfold advance_at. change (get_ctx (act_plus x s) o) with (get_ctx s o).
+  unfold advance_at. change (get_ctx (acts_plus xs s) o) with (get_ctx s o).
   destruct (get_ctx s o) as [c|]; [|reflexivity].
   destruct (match out with CpDefault => cond_at ph c | _ => false end); reflexivity.
 Qed.
 
-(* the primitives preserve [WFbut x] *)
-Lemma acquire_wfbut x s o r s' res :
-  WFbut x s -> In o (active s) \/ o = x -> acquire current s o r = (s', res) -> WFbut x s'.
+(* the primitives preserve [WFbuts xs] *)
+Lemma acquire_wfbuts xs s o r s' res :
+  WFbuts xs s -> In o (active s) \/ In o xs -> acquire current s o r = (s', res) -> WFbuts xs s'.
 Proof.
-  intros W Ha H. unfold WFbut in *.
-  pose proof (acquire_plus current x s o r) as E. rewrite H in E. simpl in E.
-  eapply acquire_wf; [exact W| |exact E]. simpl. destruct Ha; auto.
+  intros W Ha H. unfold WFbuts in *.
+  pose proof (acquire_pluss current xs s o r) as E. rewrite H in E. simpl in E.
+  eapply acquire_wf; [exact W| |exact E]. simpl. apply in_or_app. tauto.
 Qed.
 
-Lemma release_wfbut x s o r s' b : WFbut x s -> release current s o r = (s', b) -> WFbut x s'.
+Lemma release_wfbuts xs s o r s' b : WFbuts xs s -> release current s o r = (s', b) -> WFbuts xs s'.
 Proof.
-  intros W H. unfold WFbut in *.
-  pose proof (release_plus current x s o r) as E. rewrite H in E. simpl in E.
+  intros W H. unfold WFbuts in *.
+  pose proof (release_pluss current xs s o r) as E. rewrite H in E. simpl in E.
   eapply release_wf; eauto.
 Qed.
 
-Lemma finish_wfbut x s o : WFbut x s -> WFbut x (finish current s o).
+Lemma finish_wfbuts xs s o : WFbuts xs s -> WFbuts xs (finish current s o).
 Proof.
-  intros W. unfold WFbut in *. destruct (Z.eq_dec o x) as [->|N].
-  - destruct (wfbut_ctx x s W) as (c & Hc).
-    destruct (finish_spec _ x W) as (W' & _ & _ & _ & _ & _ & _ & _ & S).
-    rewrite finish_plus_eq in *. apply wf_wfbut; auto.
-    destruct (S c Hc) as (y & Hy & _). eauto.
-  - rewrite <- finish_plus_ne by auto. apply finish_spec; auto.
+  intros W. unfold WFbuts in *.
+  destruct (finish_spec _ o W) as (W' & _ & _ & _ & _ & _ & _ & _ & S).
+  rewrite finish_pluss in W', S.
+  unfold acts_plus at 1. unfold acts_plus at 1 in W'.
+  eapply wf_more_active; [exact W'| |].
+  - intros y Y. apply in_app_or in Y as [Y|Y]; apply in_or_app; auto.
+    left. apply remz_In in Y. tauto.
+  - intros y Y. destruct (Z.eq_dec y o) as [->|N].
+    + destruct (wf_act _ W o) as (c & Hc).
+      { apply in_app_or in Y as [Y|Y]; simpl; apply in_or_app; auto.
+        exfalso. eapply finish_not_active; eauto. }
+      destruct (S c Hc) as (x & Hx & _). eexists. exact Hx.
+    + apply (wf_act _ W' y). simpl. apply in_app_or in Y as [Y|Y]; apply in_or_app; auto.
+      left. apply remz_In. auto.
 Qed.
 
-(* ending [x] itself: everything it still holds is released, the state is well-formed again *)
-Lemma finish_x_wf x s : WFbut x s -> WF (finish current s x) /\ owns_nothing (finish current s x) x.
+(* ending [x] itself, the innermost of the chain: everything it still holds is
+   released, the state is well-formed up to the rest of the chain *)
+Lemma finish_x_wfbuts x xs s :
+  WFbuts (x :: xs) s -> ~ In x xs ->
+  WFbuts xs (finish current s x) /\ owns_nothing (finish current s x) x.
 Proof.
-  intros W. destruct (finish_spec _ x W) as (W' & N & _). rewrite finish_plus_eq in *. auto.
+  intros W N. unfold WFbuts in *.
+  destruct (finish_spec _ x W) as (W' & N' & _).
+  rewrite finish_pluss, remz_cons_eq, remz_notin in W', N' by auto.
+  split; [exact W' | exact N'].
 Qed.
 
-Lemma finish_lock_frame_but x s o r :
-  WFbut x s -> owner s r <> Some o -> get_lock (finish current s o) r = get_lock s r.
+Lemma finish_lock_frame_buts xs s o r :
+  WFbuts xs s -> owner s r <> Some o -> get_lock (finish current s o) r = get_lock s r.
 Proof.
   intros W N. destruct (finish_spec _ o W) as (_ & _ & _ & _ & L & _).
-  rewrite <- finish_plus_lock with (x := x). now apply L.
+  specialize (L r N). rewrite finish_pluss in L. exact L.
 Qed.
 
-Lemma start_op_wfbut x s o p ex : WFbut x s -> get_ctx s o = None -> WFbut x (start_op s o p ex).
+Lemma start_op_pluss xs s o p ex :
+  ~ In o (xs ++ active s) -> start_op (acts_plus xs s) o p ex = acts_plus xs (start_op s o p ex).
 Proof.
-  intros W F. unfold WFbut in *.
-  assert (E : start_op (act_plus x s) o p ex = act_plus x (start_op s o p ex)).
-  { pose proof (wf_fresh_not_active _ o W F) as Na. simpl in Na.
-    unfold start_op.
-    assert (M1 : memz o (active (act_plus x s)) = false) by (apply memz_false; simpl; tauto).
-    assert (M2 : memz o (active s) = false) by (apply memz_false; tauto).
-    rewrite M1, M2. reflexivity. }
-  rewrite <- E. apply start_op_wf; auto.
+  intros Na. unfold start_op.
+  assert (M1 : memz o (active (acts_plus xs s)) = false) by (apply memz_false; exact Na).
+  assert (M2 : memz o (active s) = false) by (apply memz_false; intros X; apply Na, in_or_app; auto).
+  rewrite M1, M2. unfold acts_plus, set_active, put_ctx, set_ctxs.
+  cbn [active resources ctxs edges now]. now rewrite app_assoc.
+Qed.
+
+Lemma start_op_wfbuts xs s o p ex : WFbuts xs s -> get_ctx s o = None -> WFbuts xs (start_op s o p ex).
+Proof.
+  intros W F. unfold WFbuts in *.
+  rewrite <- start_op_pluss.
+  - apply start_op_wf; auto.
+  - apply (wf_fresh_not_active _ o W F).
 Qed.
 
 (* execute_operation may re-use the id of an operation that has ended *)
@@ -1353,74 +1454,105 @@ Proof.
     + rewrite Z.eqb_refl. eauto.
 Qed.
 
-Lemma upd_ctx_wfbut x s o f :
-  WFbut x s -> (forall c, c_acq (f c) = c_acq c) -> WFbut x (upd_ctx s o f).
-Proof. intros W Hf. unfold WFbut. rewrite <- upd_ctx_plus. now apply upd_ctx_wf. Qed.
-
-Lemma advance_at_wfbut ph x s o out : WFbut x s -> WFbut x (fst (advance_at ph s o out)).
+(* ... also from inside a callback, as long as it is not the id of an enclosing operation *)
+Lemma start_op_wfbuts_ended xs s o p ex :
+  WFbuts xs s -> ~ In o (active s) -> ~ In o xs -> WFbuts xs (start_op s o p ex).
 Proof.
-  intros W. unfold WFbut in *. pose proof (advance_at_plus ph x s o out) as E.
+  intros W Na Nx. unfold WFbuts in *.
+  assert (N : ~ In o (xs ++ active s)) by (intros X; apply in_app_or in X; tauto).
+  rewrite <- start_op_pluss by exact N. apply start_op_wf_ended; auto.
+Qed.
+
+Lemma upd_ctx_wfbuts xs s o f :
+  WFbuts xs s -> (forall c, c_acq (f c) = c_acq c) -> WFbuts xs (upd_ctx s o f).
+Proof. intros W Hf. unfold WFbuts. rewrite <- upd_ctx_pluss. now apply upd_ctx_wf. Qed.
+
+Lemma advance_at_wfbuts ph xs s o out : WFbuts xs s -> WFbuts xs (fst (advance_at ph s o out)).
+Proof.
+  intros W. unfold WFbuts in *. pose proof (advance_at_pluss ph xs s o out) as E.
   eapply advance_at_wf; eauto.
 Qed.
 
-Lemma abort_if_active_wfbut x s o : WFbut x s -> WFbut x (abort_if_active current s o).
-Proof. intros W. unfold abort_if_active. destruct (is_active s o); auto. now apply finish_wfbut. Qed.
+Lemma abort_if_active_wfbuts xs s o : WFbuts xs s -> WFbuts xs (abort_if_active current s o).
+Proof. intros W. unfold abort_if_active. destruct (is_active s o); auto. now apply finish_wfbuts. Qed.
 
-Lemma abort_fold_wfbut x (L : list Z) : forall s,
-  WFbut x s -> WFbut x (fold_left (abort_if_active current) L s).
-Proof. induction L as [|o L IH]; intros s W; simpl; auto. apply IH. now apply abort_if_active_wfbut. Qed.
+Lemma abort_fold_wfbuts xs (L : list Z) : forall s,
+  WFbuts xs s -> WFbuts xs (fold_left (abort_if_active current) L s).
+Proof. induction L as [|o L IH]; intros s W; simpl; auto. apply IH. now apply abort_if_active_wfbuts. Qed.
 
 Lemma advance_as_at s o out : advance s o out = advance_at (phase_of s o) s o out.
 Proof.
   unfold advance, advance_at, phase_of. destruct (get_ctx s o) as [c|]; reflexivity.
 Qed.
 
-Lemma prio_only_plus x s s' : prio_only s s' -> prio_only (act_plus x s) (act_plus x s').
+Lemma prio_only_pluss xs s s' : prio_only s s' -> prio_only (acts_plus xs s) (acts_plus xs s').
 Proof.
   intros [A B C D E]. constructor; auto.
-  unfold act_plus. rewrite !active_set_active. now rewrite B.
+  unfold acts_plus. rewrite !active_set_active. now rewrite B.
 Qed.
 
-Lemma prio_only_wfbut x s s' : prio_only s s' -> WFbut x s -> WFbut x s'.
-Proof. intros P W. unfold WFbut in *. eapply prio_only_wf; [apply prio_only_plus; eauto | auto]. Qed.
+Lemma prio_only_wfbuts xs s s' : prio_only s s' -> WFbuts xs s -> WFbuts xs s'.
+Proof. intros P W. unfold WFbuts in *. eapply prio_only_wf; [apply prio_only_pluss; eauto | auto]. Qed.
 
-Lemma fstep_wfbut x w s a : WFbut x s -> WFbut x (fst (fstep current w s a)).
+Lemma fstep_wfbuts xs w s a : WFbuts xs s -> WFbuts xs (fst (fstep current w s a)).
 Proof.
   intros W. destruct a; cbn [fstep].
-  - destruct (has_ctx s o) eqn:E; simpl; auto. apply start_op_wfbut; auto. now apply has_ctx_false.
+  - destruct (has_ctx s o) eqn:E; simpl; auto. apply start_op_wfbuts; auto. now apply has_ctx_false.
   - destruct (is_active s o) eqn:E; simpl; auto.
     destruct (acquire current s o r) as [s' res] eqn:Ha.
-    assert (WFbut x s') by (apply (acquire_wfbut x s o r s' res W); [left; now apply is_active_In | exact Ha]).
+    assert (WFbuts xs s') by (apply (acquire_wfbuts xs s o r s' res W); [left; now apply is_active_In | exact Ha]).
     destruct res; auto.
   - destruct (is_active s o) eqn:E; simpl; auto.
-    destruct (release current s o r) as [s' b] eqn:Hr. simpl. eapply release_wfbut; eauto.
-  - destruct (is_active s o); simpl; auto. now apply finish_wfbut.
-  - destruct (is_active s o); simpl; auto. now apply finish_wfbut.
-  - destruct (is_active s o); simpl; auto. now apply finish_wfbut.
-  - unfold wd_execute. rewrite fold_abort_events. simpl. now apply abort_fold_wfbut.
-  - unfold shutdown. now apply abort_fold_wfbut.
-  - exact (wf_set_now (act_plus x s) _ W).
+    destruct (release current s o r) as [s' b] eqn:Hr. simpl. eapply release_wfbuts; eauto.
+  - destruct (is_active s o); simpl; auto. now apply finish_wfbuts.
+  - destruct (is_active s o); simpl; auto. now apply finish_wfbuts.
+  - destruct (is_active s o); simpl; auto. now apply finish_wfbuts.
+  - unfold wd_execute. rewrite fold_abort_events. simpl. now apply abort_fold_wfbuts.
+  - unfold shutdown. now apply abort_fold_wfbuts.
+  - exact (wf_set_now (acts_plus xs s) _ W).
   - destruct (pi_boost s) as [[s1 nb]|] eqn:B; auto.
-    assert (W1 : WFbut x s1) by (eapply prio_only_wfbut; [eapply pi_boost_po; eauto | auto]).
-    unfold wd_execute. rewrite fold_abort_events. simpl. now apply abort_fold_wfbut.
+    assert (W1 : WFbuts xs s1) by (eapply prio_only_wfbuts; [eapply pi_boost_po; eauto | auto]).
+    unfold wd_execute. rewrite fold_abort_events. simpl. now apply abort_fold_wfbuts.
   - destruct (is_active s o); simpl; auto.
-    rewrite advance_as_at. pose proof (advance_at_wfbut (phase_of s o) x s o CpDefault W) as X.
+    rewrite advance_as_at. pose proof (advance_at_wfbuts (phase_of s o) xs s o CpDefault W) as X.
     destruct (advance_at (phase_of s o) s o CpDefault) as [s' b]. exact X.
   - destruct (get_lock s r) as [l|] eqn:Hl; simpl; auto.
     destruct (l_wait l) as [|y t]; simpl; auto.
-    unfold WFbut in *.
-    change (WF (put_lock (act_plus x s) r (mkLock (l_owner l) (l_prio l) (l_hold l) (l_preempt l) t))).
+    unfold WFbuts in *.
+    change (WF (put_lock (acts_plus xs s) r (mkLock (l_owner l) (l_prio l) (l_hold l) (l_preempt l) t))).
     eapply wf_put_lock_core; eauto.
 Qed.
 
-Lemma run_work_wfbut x w acts : forall s, WFbut x s -> WFbut x (fst (run_work current w s acts)).
+Lemma run_work_wfbuts xs w acts : forall s, WFbuts xs s -> WFbuts xs (fst (run_work current w s acts)).
+Proof. intros s W. apply run_work_inv; auto. intros; now apply fstep_wfbuts. Qed.
+
+(* the one-operation case, under the names used so far *)
+Lemma acquire_wfbut x s o r s' res :
+  WFbut x s -> In o (active s) \/ o = x -> acquire current s o r = (s', res) -> WFbut x s'.
+Proof. intros W Ha H. apply (acquire_wfbuts [x] s o r s' res W); auto. destruct Ha; simpl; auto. Qed.
+Lemma release_wfbut x s o r s' b : WFbut x s -> release current s o r = (s', b) -> WFbut x s'.
+Proof. apply release_wfbuts. Qed.
+Lemma finish_wfbut x s o : WFbut x s -> WFbut x (finish current s o).
+Proof. apply finish_wfbuts. Qed.
+Lemma finish_x_wf x s : WFbut x s -> WF (finish current s x) /\ owns_nothing (finish current s x) x.
 Proof.
-  induction acts as [|a acts IH]; intros s W; simpl; auto.
-  destruct a as [|f].
-  - specialize (IH s W). destruct (run_work current w s acts). auto.
-  - pose proof (fstep_wfbut x w s f W) as W1. destruct (fstep current w s f) as [s1 ret]. simpl in W1.
-    specialize (IH s1 W1). destruct (run_work current w s1 acts). auto.
+  intros W. destruct (finish_x_wfbuts x [] s W (fun F => F)) as (A & B).
+  split; [now apply wfbuts_nil | exact B].
 Qed.
+Lemma finish_lock_frame_but x s o r :
+  WFbut x s -> owner s r <> Some o -> get_lock (finish current s o) r = get_lock s r.
+Proof. apply finish_lock_frame_buts. Qed.
+Lemma start_op_wfbut x s o p ex : WFbut x s -> get_ctx s o = None -> WFbut x (start_op s o p ex).
+Proof. apply start_op_wfbuts. Qed.
+Lemma upd_ctx_wfbut x s o f :
+  WFbut x s -> (forall c, c_acq (f c) = c_acq c) -> WFbut x (upd_ctx s o f).
+Proof. apply upd_ctx_wfbuts. Qed.
+Lemma advance_at_wfbut ph x s o out : WFbut x s -> WFbut x (fst (advance_at ph s o out)).
+Proof. apply advance_at_wfbuts. Qed.
+Lemma fstep_wfbut x w s a : WFbut x s -> WFbut x (fst (fstep current w s a)).
+Proof. apply fstep_wfbuts. Qed.
+Lemma run_work_wfbut x w acts : forall s, WFbut x s -> WFbut x (fst (run_work current w s acts)).
+Proof. apply run_work_wfbuts. Qed.
 
 (* ------------------------------------------------------------------ *)
 (* Ending OTHER operations never touches a lock owned by [o]; and once [o] is
@@ -1558,9 +1690,11 @@ Qed.
 Lemma run_work_cons fl' w s a acts :
   fst (run_work fl' w s (a :: acts)) = fst (run_work fl' w (fst (run_work fl' w s [a])) acts).
 Proof.
-  destruct a as [|f]; cbn [run_work].
+  destruct a as [|f|o0 p0 reqs0 sc0]; cbn [run_work_with].
   - cbn [fst]. destruct (run_work fl' w s acts). reflexivity.
   - destruct (fstep fl' w s f) as [s1 ret]. cbn [fst]. destruct (run_work fl' w s1 acts). reflexivity.
+  - destruct (is_active s o0 || memz o0 []); cbn [no_nested fst];
+      destruct (run_work fl' w s acts); reflexivity.
 Qed.
 
 Lemma callback_keeps w (acts : list cact) : forall s, keeps s (fst (run_work fl w s (map cact_wact acts))).
@@ -1680,15 +1814,19 @@ Proof.
     + inversion H; subst. apply acquire_shape in Ha as [-> _]. auto.
 Qed.
 
-Lemma acquire_all_wfbut o reqs : forall s k s' out,
-  WFbut o s -> acquire_all current s o k reqs = (s', out) -> WFbut o s'.
+Lemma acquire_all_wfbuts xs o reqs : forall s k s' out,
+  WFbuts xs s -> In o xs -> acquire_all current s o k reqs = (s', out) -> WFbuts xs s'.
 Proof.
-  induction reqs as [|r reqs IH]; intros s k s' out W H; simpl in H.
+  induction reqs as [|r reqs IH]; intros s k s' out W Hx H; simpl in H.
   - inversion H; subst. auto.
   - destruct (acquire current s o r) as [s1 res] eqn:Hq.
-    pose proof (acquire_wfbut o _ _ _ _ _ W (or_intror eq_refl) Hq) as W1.
+    pose proof (acquire_wfbuts xs _ _ _ _ _ W (or_intror Hx) Hq) as W1.
     destruct res as [lr| |]; [destruct lr|..]; try (inversion H; subst; auto; fail); eapply IH; eauto.
 Qed.
+
+Lemma acquire_all_wfbut o reqs : forall s k s' out,
+  WFbut o s -> acquire_all current s o k reqs = (s', out) -> WFbut o s'.
+Proof. intros s k s' out W. apply acquire_all_wfbuts; auto. simpl. auto. Qed.
 
 (* ------------------------------------------------------------------ *)
 (* execute_operation: every path ends in complete/abort of a good state *)
@@ -1697,10 +1835,10 @@ Definition ends (o : Z) (P : st -> Prop) (x : st * result) : Prop :=
   exists sX, P sX /\ fst x = finish current sX o.
 
 Section Stages.
-Variables (chk : bool) (w : wcfg) (o : Z) (sc : script) (P : st -> Prop).
+Variables (chk : bool) (w : wcfg) (rw : runner) (o : Z) (sc : script) (P : st -> Prop).
 Hypothesis P_upd : forall s f, (forall c, c_acq (f c) = c_acq c) -> P s -> P (upd_ctx s o f).
 Hypothesis P_adv : forall ph s out, P s -> P (fst (advance_at ph s o out)).
-Hypothesis P_work : forall s, P s -> P (fst (run_work current w s (sc_work sc))).
+Hypothesis P_work : forall s, P s -> P (fst (rw s (sc_work sc))).
 Hypothesis P_cb : forall k s, P s -> P (fst (run_work current w s (cb_of sc k))).
 
 Lemma failed_ends s log : P s -> ends o P (failed current s o log).
@@ -1729,15 +1867,15 @@ Proof.
   destruct b2; simpl; [apply exec_validate_ends | apply failed_ends]; assumption.
 Qed.
 
-Lemma exec_work_ends s log : P s -> ends o P (exec_work current w s o sc log).
+Lemma exec_work_ends s log : P s -> ends o P (exec_work current w rw s o sc log).
 Proof.
   intros H. unfold exec_work.
   pose proof (P_work _ H) as H5.
-  destruct (run_work current w s (sc_work sc)) as [s5 wl]. simpl in H5.
+  destruct (rw s (sc_work sc)) as [s5 wl]. simpl in H5.
   destruct (sc_work_raises sc); [apply failed_ends | apply exec_after_work_ends]; assumption.
 Qed.
 
-Lemma exec_acquired_ends s log : P s -> ends o P (exec_acquired chk current w s o sc log).
+Lemma exec_acquired_ends s log : P s -> ends o P (exec_acquired chk current w rw s o sc log).
 Proof.
   intros H. unfold exec_acquired.
   assert (H3 : P (upd_ctx s o c_set_racq)) by (apply P_upd; auto).
@@ -1753,39 +1891,106 @@ End Stages.
 Lemma start_op_ctx s o p ex : exists c, get_ctx (start_op s o p ex) o = Some c.
 Proof. unfold start_op. autorewrite with st. rewrite Z.eqb_refl. eauto. Qed.
 
-(* the id may be one that was used before, by an operation that has ended *)
+(* the id may be one that was used before, by an operation that has ended - but
+   not that of an operation whose execute_operation call encloses this one *)
+Lemma exec_begin_specs xs w s o p sc s1 b0 l0 :
+  WFbuts xs s -> ~ In o (active s) -> ~ In o xs ->
+  exec_begin current w s o p sc = (s1, b0, l0) -> WFbuts (o :: xs) s1.
+Proof.
+  intros W Na Nx H. unfold exec_begin in H.
+  assert (W0 : WFbuts (o :: xs) (start_op s o p false)).
+  { apply wfbuts_cons; [now apply start_op_wfbuts_ended | apply start_op_ctx]. }
+  pose proof (run_work_wfbuts (o :: xs) w (cb_of sc 0) _ W0) as W0'.
+  destruct (run_work current w (start_op s o p false) (cb_of sc 0)) as [s0' l]. simpl in W0'.
+  pose proof (advance_at_wfbuts G0 (o :: xs) s0' o (cp_of sc 0) W0') as W1.
+  destruct (advance_at G0 s0' o (cp_of sc 0)) as [sa b]. simpl in W1. inversion H; subst. exact W1.
+Qed.
+
 Lemma exec_begin_spec w s o p sc s1 b0 l0 :
   WF s -> ~ In o (active s) -> exec_begin current w s o p sc = (s1, b0, l0) -> WFbut o s1.
 Proof.
-  intros W Na H. unfold exec_begin in H.
-  assert (W0 : WFbut o (start_op s o p false)).
-  { apply wf_wfbut; [now apply start_op_wf_ended | apply start_op_ctx]. }
-  pose proof (run_work_wfbut o w (cb_of sc 0) _ W0) as W0'.
-  destruct (run_work current w (start_op s o p false) (cb_of sc 0)) as [s0' l]. simpl in W0'.
-  pose proof (advance_at_wfbut G0 o s0' o (cp_of sc 0) W0') as W1.
-  destruct (advance_at G0 s0' o (cp_of sc 0)) as [sa b]. simpl in W1. inversion H; subst. exact W1.
+  intros W Na H. apply (exec_begin_specs [] w s o p sc s1 b0 l0); auto. now apply wfbuts_nil.
+Qed.
+
+(* ------------------------------------------------------------------ *)
+(* nested execute_operation calls: induction on the nesting depth of the script *)
+
+Fixpoint script_size (sc : script) : nat :=
+  match sc with
+  | mkScript _ _ work _ _ =>
+      S ((fix ws (l : list wact) : nat :=
+            match l with
+            | [] => O
+            | a :: r => (match a with WExec _ _ _ sc' => script_size sc' | _ => O end + ws r)%nat
+            end) work)
+  end.
+
+Lemma script_size_in o p reqs sc' sc :
+  In (WExec o p reqs sc') (sc_work sc) -> (script_size sc' < script_size sc)%nat.
+Proof.
+  destruct sc as [cp cpw work rs v]. cbn [sc_work script_size].
+  induction work as [|a work IH]; intros X; [destruct X|].
+  destruct X as [->|X].
+  - lia.
+  - specialize (IH X). destruct a; lia.
+Qed.
+
+Lemma exec_in_eq chk fl w sc encl s o p reqs :
+  exec_in chk fl w sc encl s o p reqs =
+  exec_body chk fl w (run_work_x chk (o :: encl) fl w) s o p reqs sc.
+Proof. destruct sc; reflexivity. Qed.
+
+(* execute_operation(o) called while the calls of [xs] are in progress: every
+   path ends in complete/abort of a state that is well-formed up to [o :: xs] *)
+Lemma exec_in_ends_wfbuts w : forall n sc, (script_size sc < n)%nat -> forall xs s o p reqs,
+  WFbuts xs s -> ~ In o (active s) -> ~ In o xs ->
+  ends o (WFbuts (o :: xs)) (exec_in true current w sc xs s o p reqs).
+Proof.
+  induction n as [|n IHn]; intros sc Hn xs s o p reqs W Na Nx; [lia|].
+  rewrite exec_in_eq. unfold exec_body.
+  destruct (exec_begin current w s o p sc) as [[s1 b0] l0] eqn:Hb.
+  pose proof (exec_begin_specs _ _ _ _ _ _ _ _ _ W Na Nx Hb) as W1.
+  destruct (acquire_all current s1 o 0 reqs) as [s2 out] eqn:Ha.
+  assert (Hin : In o (o :: xs)) by (simpl; auto).
+  pose proof (acquire_all_wfbuts _ _ _ _ _ _ _ W1 Hin Ha) as W2.
+  assert (Hup : forall s f, (forall c, c_acq (f c) = c_acq c) -> WFbuts (o :: xs) s -> WFbuts (o :: xs) (upd_ctx s o f))
+    by (intros; now apply upd_ctx_wfbuts).
+  assert (Hadv : forall ph s out, WFbuts (o :: xs) s -> WFbuts (o :: xs) (fst (advance_at ph s o out)))
+    by (intros; now apply advance_at_wfbuts).
+  assert (Hcb : forall k s, WFbuts (o :: xs) s -> WFbuts (o :: xs) (fst (run_work current w s (cb_of sc k))))
+    by (intros; now apply run_work_wfbuts).
+  assert (Hwork : forall s, WFbuts (o :: xs) s ->
+                    WFbuts (o :: xs) (fst (run_work_x true (o :: xs) current w s (sc_work sc)))).
+  { intros s0 W0. unfold run_work_x. apply run_work_with_inv with (P := WFbuts (o :: xs)); auto.
+    - intros; now apply fstep_wfbuts.
+    - intros s' o' p' reqs' sc' Hi W' Na' Nx'.
+      assert (Hs : (script_size sc' < n)%nat) by (apply script_size_in in Hi; lia).
+      destruct (IHn sc' Hs (o :: xs) s' o' p' reqs' W' Na' Nx') as (sX & WX & E). rewrite E.
+      now apply finish_x_wfbuts. }
+  destruct out.
+  - apply exec_acquired_ends; auto.
+  - apply failed_ends; auto.
+  - apply failed_ends; auto.
+Qed.
+
+Lemma nested_no_leak_proof w xs s o p reqs sc :
+  WFbuts xs s -> ~ In o (active s) -> ~ In o xs ->
+  let s' := fst (exec_in true current w sc xs s o p reqs) in
+  owns_nothing s' o /\ ~ In o (active s') /\ WFbuts xs s'.
+Proof.
+  intros W Na Nx.
+  destruct (exec_in_ends_wfbuts w (S (script_size sc)) sc (Nat.lt_succ_diag_r _) xs s o p reqs W Na Nx)
+    as (sX & WX & E).
+  cbv zeta. rewrite E. destruct (finish_x_wfbuts o xs sX WX Nx) as (W' & N).
+  split; auto. split; auto. apply finish_not_active.
 Qed.
 
 Lemma exec_op_ends_wfbut w s o p reqs sc :
   WF s -> ~ In o (active s) -> ends o (WFbut o) (exec_op current w s o p reqs sc).
 Proof.
   intros W Na. unfold exec_op, exec_op_gen.
-  destruct (exec_begin current w s o p sc) as [[s1 b0] l0] eqn:Hb.
-  pose proof (exec_begin_spec _ _ _ _ _ _ _ _ W Na Hb) as W1.
-  destruct (acquire_all current s1 o 0 reqs) as [s2 out] eqn:Ha.
-  pose proof (acquire_all_wfbut _ _ _ _ _ _ W1 Ha) as W2.
-  assert (Hup : forall s f, (forall c, c_acq (f c) = c_acq c) -> WFbut o s -> WFbut o (upd_ctx s o f))
-    by (intros; now apply upd_ctx_wfbut).
-  assert (Hadv : forall ph s out, WFbut o s -> WFbut o (fst (advance_at ph s o out)))
-    by (intros; now apply advance_at_wfbut).
-  assert (Hwork : forall s, WFbut o s -> WFbut o (fst (run_work current w s (sc_work sc))))
-    by (intros; now apply run_work_wfbut).
-  assert (Hcb : forall k s, WFbut o s -> WFbut o (fst (run_work current w s (cb_of sc k))))
-    by (intros; now apply run_work_wfbut).
-  destruct out.
-  - apply exec_acquired_ends; auto.
-  - apply failed_ends; auto.
-  - apply failed_ends; auto.
+  apply (exec_in_ends_wfbuts w (S (script_size sc)) sc (Nat.lt_succ_diag_r _) [] s o p reqs); auto.
+  now apply wfbuts_nil.
 Qed.
 
 Lemma no_leak_proof w s o p reqs sc :
@@ -1805,51 +2010,61 @@ Definition no_calls (sc : script) : Prop :=
 Definition obtained_by (w : wcfg) (s : st) (o p : Z) (reqs : list Z) (sc : script) : list Z :=
   obtained current (fst (fst (exec_begin current w s o p sc))) o reqs.
 
-Lemma unobtained_untouched_proof w s o p reqs sc r :
-  WF s -> ~ In o (active s) -> no_calls sc ->
+Lemma nested_unobtained_untouched_proof w xs s o p reqs sc r :
+  WFbuts xs s -> ~ In o (active s) -> ~ In o xs -> no_calls sc ->
   ~ In r (obtained_by w s o p reqs sc) ->
-  lock_core (fst (exec_op current w s o p reqs sc)) r = lock_core s r.
+  lock_core (fst (exec_in true current w sc xs s o p reqs)) r = lock_core s r.
 Proof.
-  intros W Na (PO & PC) N. unfold obtained_by in N. unfold exec_op, exec_op_gen.
+  intros W Na Nx (PO & PC) N. unfold obtained_by in N. rewrite exec_in_eq. unfold exec_body.
   destruct (exec_begin current w s o p sc) as [[s1 b0] l0] eqn:Hb. simpl in N.
-  pose proof (exec_begin_spec _ _ _ _ _ _ _ _ W Na Hb) as W1.
+  pose proof (exec_begin_specs _ _ _ _ _ _ _ _ _ W Na Nx Hb) as W1.
   assert (L1 : forall r, get_lock s1 r = get_lock s r).
-  { unfold exec_begin in Hb. pose proof (run_work_probes current w (cb_of sc 0) (start_op s o p false) (PC 0%nat)) as E.
+  { unfold exec_begin in Hb. pose proof (run_work_probes no_nested [] current w (cb_of sc 0) (start_op s o p false) (PC 0%nat)) as E.
     destruct (run_work current w (start_op s o p false) (cb_of sc 0)) as [s0' l]. simpl in E. subst s0'.
     destruct (advance_at G0 (start_op s o p false) o (cp_of sc 0)) as [sa b] eqn:Hv.
     destruct (advance_at_frame _ _ _ _ _ _ Hv) as (_ & L & _). inversion Hb; subst.
     intros r0. rewrite L. reflexivity. }
   destruct (acquire_all current s1 o 0 reqs) as [s2 out] eqn:Ha.
-  pose proof (acquire_all_wfbut _ _ _ _ _ _ W1 Ha) as W2.
+  assert (Hin : In o (o :: xs)) by (simpl; auto).
+  pose proof (acquire_all_wfbuts _ _ _ _ _ _ _ W1 Hin Ha) as W2.
   destruct (acquire_all_untouched _ _ _ _ _ _ _ r Ha N) as (C2 & O2).
-  set (P := fun sx => WFbut o sx /\ lock_core sx r = lock_core s r /\ owner sx r <> Some o).
+  set (P := fun sx => WFbuts (o :: xs) sx /\ lock_core sx r = lock_core s r /\ owner sx r <> Some o).
   assert (P2 : P s2).
   { split; auto. split.
     - rewrite C2. apply lock_core_eq, L1.
     - intros X. apply O2 in X. rewrite owner_def, L1 in X.
-      apply (wf_inactive_owns_nothing s o W Na r). rewrite owner_def. exact X. }
+      apply (wfbuts_inactive_owns_nothing xs s o W Na Nx r). rewrite owner_def. exact X. }
   assert (Hup : forall s f, (forall c, c_acq (f c) = c_acq c) -> P s -> P (upd_ctx s o f)).
   { intros s0 f Hf (Wa & Ca & Oa). destruct (upd_ctx_frame s0 o f) as (_ & L & _).
-    split. { now apply upd_ctx_wfbut. }
+    split. { now apply upd_ctx_wfbuts. }
     split. { rewrite <- Ca. apply lock_core_eq, L. }
     now rewrite owner_def, L. }
   assert (Hadv : forall ph s out, P s -> P (fst (advance_at ph s o out))).
-  { intros ph s0 out0 (Wa & Ca & Oa). pose proof (advance_at_wfbut ph o s0 o out0 Wa) as Wb.
+  { intros ph s0 out0 (Wa & Ca & Oa). pose proof (advance_at_wfbuts ph (o :: xs) s0 o out0 Wa) as Wb.
     destruct (advance_at ph s0 o out0) as [s' b] eqn:E. simpl in *.
     destruct (advance_at_frame _ _ _ _ _ _ E) as (_ & L & _).
     split. { exact Wb. }
     split. { rewrite <- Ca. apply lock_core_eq, L. }
     now rewrite owner_def, L. }
-  assert (Hwork : forall s, P s -> P (fst (run_work current w s (sc_work sc)))).
-  { intros s0 H0. now rewrite run_work_probes. }
+  assert (Hwork : forall s, P s -> P (fst (run_work_x true (o :: xs) current w s (sc_work sc)))).
+  { intros s0 H0. unfold run_work_x. now rewrite run_work_probes. }
   assert (Hcb : forall k s, P s -> P (fst (run_work current w s (cb_of sc k)))).
   { intros k s0 H0. rewrite run_work_probes; auto. }
   assert (E : ends o P (match out with
-                        | AllAcquired => exec_acquired true current w s2 o sc (l0 ++ [EvCp 0 b0])
+                        | AllAcquired => exec_acquired true current w (run_work_x true (o :: xs) current w) s2 o sc (l0 ++ [EvCp 0 b0])
                         | _ => failed current s2 o (l0 ++ [EvCp 0 b0]) end)).
   { destruct out; [apply exec_acquired_ends | apply failed_ends | apply failed_ends]; auto. }
   destruct E as (sX & (WX & CX & OX) & ->).
-  rewrite <- CX. apply lock_core_eq. eapply finish_lock_frame_but; eauto.
+  rewrite <- CX. apply lock_core_eq. eapply finish_lock_frame_buts; eauto.
+Qed.
+
+Lemma unobtained_untouched_proof w s o p reqs sc r :
+  WF s -> ~ In o (active s) -> no_calls sc ->
+  ~ In r (obtained_by w s o p reqs sc) ->
+  lock_core (fst (exec_op current w s o p reqs sc)) r = lock_core s r.
+Proof.
+  intros W Na PO N. unfold exec_op, exec_op_gen.
+  apply nested_unobtained_untouched_proof; auto. now apply wfbuts_nil.
 Qed.
 
 Lemma unrequested_untouched_proof w s o p reqs sc r :
@@ -1870,18 +2085,23 @@ Definition is_inner (e : ev) : Prop := match e with EvProbe _ | EvDid _ => True 
 Definition validation_ok (sc : script) : bool :=
   match sc_validate sc with VNone | VTrue => true | _ => false end.
 
-Lemma run_work_log_inner fl w acts : forall s, Forall is_inner (snd (run_work fl w s acts)).
+Lemma run_work_log_inner nested encl fl w acts :
+  forall s, Forall is_inner (snd (run_work_with nested encl fl w s acts)).
 Proof.
   induction acts as [|a acts IH]; intros s; simpl; [constructor|].
-  destruct a as [|f].
-  - specialize (IH s). destruct (run_work fl w s acts). simpl. constructor; simpl; auto.
+  destruct a as [|f|o0 p0 reqs0 sc0].
+  - specialize (IH s). destruct (run_work_with nested encl fl w s acts). simpl. constructor; simpl; auto.
   - destruct (fstep fl w s f) as [s1 ret]. specialize (IH s1).
-    destruct (run_work fl w s1 acts). simpl. constructor; simpl; auto.
+    destruct (run_work_with nested encl fl w s1 acts). simpl. constructor; simpl; auto.
+  - destruct (is_active s o0 || memz o0 encl).
+    + specialize (IH s). destruct (run_work_with nested encl fl w s acts). simpl. constructor; simpl; auto.
+    + destruct (nested s o0 p0 reqs0 sc0) as [s1 r]. specialize (IH s1).
+      destruct (run_work_with nested encl fl w s1 acts). simpl. constructor; simpl; auto.
 Qed.
 
 Lemma exec_begin_log_inner fl w s o p sc : Forall is_inner (snd (exec_begin fl w s o p sc)).
 Proof.
-  unfold exec_begin. pose proof (run_work_log_inner fl w (cb_of sc 0) (start_op s o p false)) as X.
+  unfold exec_begin. pose proof (run_work_log_inner no_nested [] fl w (cb_of sc 0) (start_op s o p false)) as X.
   destruct (run_work fl w (start_op s o p false) (cb_of sc 0)) as [s0' l].
   destruct (advance_at G0 s0' o (cp_of sc 0)). exact X.
 Qed.
@@ -1895,7 +2115,8 @@ Lemma inner_not_in wl e : Forall is_inner wl -> In e wl -> is_inner e.
 Proof. intros H X. rewrite Forall_forall in H. auto. Qed.
 
 Ltac exec_unfold :=
-  unfold exec_op, exec_op_gen, exec_acquired, exec_work, exec_after_work, exec_validate, failed.
+  rewrite ?exec_in_eq;
+  unfold exec_body, run_work_x, exec_acquired, exec_work, exec_after_work, exec_validate, failed.
 
 (* one case per exit path of execute_operation *)
 Ltac exec_paths :=
@@ -1907,10 +2128,10 @@ Ltac exec_paths :=
   | |- context [acquire_all ?fl ?s ?o ?k ?reqs] =>
       let s2 := fresh "s2" in let out := fresh "out" in
       destruct (acquire_all fl s o k reqs) as [s2 out] eqn:?; destruct out
-  | |- context [run_work ?fl ?w ?s ?a] =>
+  | |- context [run_work_with ?n ?e ?fl ?w ?s ?a] =>
       let s5 := fresh "s5" in let wl := fresh "wl" in
-      pose proof (run_work_log_inner fl w a s);
-      destruct (run_work fl w s a) as [s5 wl] eqn:?
+      pose proof (run_work_log_inner n e fl w a s);
+      destruct (run_work_with n e fl w s a) as [s5 wl] eqn:?
   | |- context [advance_at ?ph ?s ?o ?c] =>
       let s4 := fresh "sa" in let b := fresh "b" in
       destruct (advance_at ph s o c) as [s4 b] eqn:?; destruct b
@@ -1951,8 +2172,8 @@ Proof.
   - rewrite owner_def, L2, <- owner_def. now apply Own.
 Qed.
 
-Lemma work_once_holding_all_proof fl w s o p reqs sc :
-  let res := snd (exec_op fl w s o p reqs sc) in
+Lemma work_once_holding_all_proof fl w encl s o p reqs sc :
+  let res := snd (exec_in true fl w sc encl s o p reqs) in
   (length (filter is_work (r_log res)) <= 1)%nat /\
   (forall sw, In (EvWork sw) (r_log res) ->
      In o (active sw) /\ forall r, In r reqs -> owner sw r = Some o).
@@ -2013,8 +2234,8 @@ Ltac solve_noval :=
   repeat (first [ apply Forall_nil | apply Forall_cons; [reflexivity|] ]);
   try (apply inner_noval; assumption).
 
-Lemma validate_after_work_proof fl w s o p reqs sc :
-  val_after_ret (r_log (snd (exec_op fl w s o p reqs sc))).
+Lemma validate_after_work_proof fl w encl s o p reqs sc :
+  val_after_ret (r_log (snd (exec_in true fl w sc encl s o p reqs))).
 Proof.
   exec_unfold. exec_paths;
   first
@@ -2029,8 +2250,8 @@ Proof.
       | eexists; repeat rewrite in_app_iff; simpl; eauto 10 ] ].
 Qed.
 
-Lemma success_iff_both_proof fl w s o p reqs sc :
-  let res := snd (exec_op fl w s o p reqs sc) in
+Lemma success_iff_both_proof fl w encl s o p reqs sc :
+  let res := snd (exec_in true fl w sc encl s o p reqs) in
   r_success res = true <->
   (In EvWorkRet (r_log res) /\ validation_ok sc = true /\ In (EvCp 3 true) (r_log res)).
 Proof.
@@ -2163,15 +2384,15 @@ Qed.
 (* If the operation is no longer listed as active when the G1 checkpoint has
    been evaluated (it was killed / reaped / shut down while the G0 or G1
    checkpoint callback ran), work_fn is not invoked and failure is reported. *)
-Lemma terminated_before_work_proof fl w s o p reqs sc :
-  let res := snd (exec_op fl w s o p reqs sc) in
+Lemma terminated_before_work_proof fl w encl s o p reqs sc :
+  let res := snd (exec_in true fl w sc encl s o p reqs) in
   (forall sw, In (EvWork sw) (r_log res) -> In o (active sw)) /\
   (r_success res = true -> exists sw, In (EvWork sw) (r_log res)).
 Proof.
   cbv zeta. split.
-  - intros sw X. now apply (work_once_holding_all_proof fl w s o p reqs sc).
+  - intros sw X. now apply (work_once_holding_all_proof fl w encl s o p reqs sc).
   - intros X. apply success_iff_both_proof in X as (X & _).
-    pose proof (validate_after_work_proof fl w s o p reqs sc) as V. revert X V.
+    pose proof (validate_after_work_proof fl w encl s o p reqs sc) as V. revert X V.
     exec_unfold. exec_paths; repeat rewrite in_app_iff; cbn [In]; intros X V;
       try (eexists; repeat rewrite in_app_iff; cbn [In]; eauto 12; fail);
       exfalso;
